@@ -40,6 +40,22 @@ def _arith(op):
 
 counts_sub = _arith('-')
 counts_add = _arith('+')
+from pyvc.native import NativeHarness as _NH  # noqa: E402
+from pyvc.native import ADTVal as _ADT  # noqa: E402
+
+
+def _conc_holder(sp):
+  from flax.core import lift
+  return lift.CountsHolder(dict(sp.flat_d))
+
+
+Holder.abstract = lambda py: _ADT('CountsHolder', flat_d=dict(py.flat_d))
+Holder.concretise = _conc_holder
+_PATHS = [('params',), ('dropout',), ('child', 'params')]
+Holder.enumerate = lambda bound: [_ADT('CountsHolder', flat_d=d) for d in (
+  {}, {_PATHS[0]: 1}, {_PATHS[0]: 2, _PATHS[1]: 0}, {_PATHS[0]: 3, _PATHS[2]: 1}, {_PATHS[1]: 5, _PATHS[2]: 2}, {_PATHS[0]: 1, _PATHS[1]: 1, _PATHS[2]: 4})]
+counts_sub.native = _NH('flax.core.lift', 'CountsHolder.sub')
+counts_add.native = _NH('flax.core.lift', 'CountsHolder.add')
 for _f in (counts_sub, counts_add):
   _f.locals = {'delta_flat_d': Counts}
 
